@@ -80,6 +80,12 @@ func (p *Projector) Feed(e mem.Ev) {
 	if e["k"] == "x-global" && p.Proj != nil && !p.Proj.Global {
 		return
 	}
+	if e["k"] == "x-alloc" {
+		if p.Proj != nil && p.Proj.Alloc {
+			p.Out = append(p.Out, M{"k": "x-alloc", "bytes": e["bytes"], "sent": e["sent"], "limit": e["limit"]})
+		}
+		return
+	}
 	if e["k"] == "x-intact" {
 		if p.Proj != nil && p.Proj.Intact {
 			p.Out = append(p.Out, M{"k": "x-intact", "ok": e["ok"]})
